@@ -91,7 +91,9 @@ def check_program(ctx, prog, script, rng, n_data=2, case_extra=None):
         ctx.count('accepted_although_reject_expected')
         return 'accepted-unexpectedly'
     try:
-        Model = fsic.build_model(symbols)
+        typed = rng.random() < 0.6      # both class templates (with / without type hints) are the same model
+        Model = fsic.build_model(symbols, with_type_hints=typed)
+        ctx.seen('templates', 'typed' if typed else 'untyped')
     except Exception as e:
         ctx.violation('build-failed', f'build_model raised {type(e).__name__}: {str(e)[:300]}', case)
         return 'build-failed'
